@@ -7,9 +7,14 @@
    Graph/Cycle.v::active_edges_single_cycle with prim = true, property C06; the native node means
    Cycle.gsem_c06).  No rank / root variables are declared; everything else solve_geradeweg posts is unchanged
    (Geradeweg.v::geradeweg_constraints; these constraints mention the frame variables and the is_passed
-   variables, whose ids do not move).  Same error points as Geradeweg.v::solve_geradeweg_model (height <= 0 or
-   width <= 0, not both negative: ValueError from Array2D.__init__ while the frame is declared, before the graph
-   call, on both routes).
+   variables, whose ids do not move).
+   Error points: as Geradeweg.v::solve_geradeweg_model, except for boards with height <= 0 AND width <= 0 (the
+   frame of height - 1 x width - 1 cells then has two negative dimensions): the auxiliary-variable route raises
+   ValueError there (int_array(0, 0, -1) inside the graph call for height = 0 or width = 0) while the native route
+   runs through (CyclePrimCompose.frame_cycle_prim_z; the loops over the cells are empty).  For height = width = 0
+   the program is the single native node over the empty graph, it has the empty reading as its only one, and the
+   rules accept exactly the empty answer on the board without cells: the theorem covers this case too.  Exactly
+   one of height, width <= 0: ValueError from Array2D.__init__, as before.
    Theorem geradeweg_exact_prim: same statement as GeradewegProofs.geradeweg_exact, for the evaluator gsem_c06;
    the graph side is CyclePrimCompose.cycle_frame_prim_compose, the module side GeradewegProofs.gw_clues_core
    (which holds for every evaluator). *)
@@ -23,12 +28,11 @@ Local Open Scope nat_scope.
 
 Definition solve_geradeweg_model_prim (pb : problem) : res state :=
   let H := dim pb 0 in let W := dim pb 1 in
-  if ((getz (sec pb 0) 0 <? 1) || (getz (sec pb 0) 1 <? 1))%Z then Err ValueError
-  else
-  match frame_cycle_prim (H - 1) (W - 1) with
+  match frame_cycle_prim_z (getz (sec pb 0) 0 - 1) (getz (sec pb 0) 1 - 1) with
   | Ok (st1, _) =>
       if Nat.ltb (length (sec pb 1)) (H * W) then Err IndexError
-      else Ok (ensure st1 (geradeweg_constraints (H - 1) (W - 1) (sec pb 1)))
+      else Ok (ensure st1 (if Nat.eqb H 0 || Nat.eqb W 0 then []   (* range(height) / range(width) is empty *)
+                           else geradeweg_constraints (H - 1) (W - 1) (sec pb 1)))
   | Err e => Err e
   end.
 
@@ -43,13 +47,21 @@ Proof.
   change (getz [Z.of_nat h; Z.of_nat w] 0) with (Z.of_nat h).
   change (getz [Z.of_nat h; Z.of_nat w] 1) with (Z.of_nat w).
   destruct (gw_dims h w [clues]) as [-> ->].
-  destruct ((Z.of_nat h <? 1) || (Z.of_nat w <? 1))%Z eqn:Hd; [discriminate|].
-  apply orb_false_iff in Hd. destruct Hd as [Hh Hw]. apply Z.ltb_ge in Hh, Hw.
-  destruct h as [|h]; [lia|]. destruct w as [|w]; [lia|].
+  destruct h as [|h]; [destruct w as [|w]|destruct w as [|w]].
+  2:{ rewrite frame_cycle_prim_z_one_neg by lia. intros H; discriminate H. }
+  2:{ rewrite frame_cycle_prim_z_one_neg by lia. intros H; discriminate H. }
+  { (* the board without cells *)
+    change (Z.of_nat 0 - 1)%Z with (-1)%Z. rewrite frame_cycle_prim_z_empty. cbn [Nat.mul Nat.ltb Nat.leb].
+    intros Hst. inversion Hst; subst st. clear Hst.
+    change (0 * (0 - 1) + (0 - 1) * 0) with 0.
+    cbn [Nat.eqb orb]. rewrite (empty_avc_models [] ans eq_refl).
+    destruct ans as [|a r]; [split; reflexivity|]. split; intros H; discriminate H. }
+  replace (Z.of_nat (S h) - 1)%Z with (Z.of_nat h) by lia. replace (Z.of_nat (S w) - 1)%Z with (Z.of_nat w) by lia.
+  rewrite frame_cycle_prim_z_nat.
   replace (S h - 1) with h by lia. replace (S w - 1) with w by lia.
   destruct (frame_cycle_prim h w) as [[st1 res]|e] eqn:Hcall; [|discriminate].
   destruct (Nat.ltb (length clues) (S h * S w)); [discriminate|].
-  intros Hst. inversion Hst; subst st. clear Hst.
+  cbn [Nat.eqb orb]. intros Hst. inversion Hst; subst st. clear Hst.
   destruct (cycle_frame_prim_compose h w (geradeweg_constraints h w clues) (gw_local h w clues)
               st1 res ans Hcall (fun en Hp => gw_clues_core gsem_c06 h w clues en Hp)) as [_ EX].
   change (S h * w + h * S w) with (frame_n h w). rewrite EX, gw_n_lattice_frame. reflexivity.
@@ -67,8 +79,8 @@ Proof.
   change (getz [Z.of_nat h; Z.of_nat w] 0) with (Z.of_nat h).
   change (getz [Z.of_nat h; Z.of_nat w] 1) with (Z.of_nat w).
   destruct (gw_dims h w [clues]) as [-> ->].
-  replace ((Z.of_nat h <? 1) || (Z.of_nat w <? 1))%Z with false
-    by (symmetry; apply orb_false_iff; split; apply Z.ltb_ge; lia).
+  replace (Z.of_nat h - 1)%Z with (Z.of_nat (h - 1)) by lia. replace (Z.of_nat w - 1)%Z with (Z.of_nat (w - 1)) by lia.
+  rewrite frame_cycle_prim_z_nat.
   destruct (frame_cycle_prim_ok (h - 1) (w - 1)) as [st1 [Hc _]]. rewrite Hc.
   replace (Nat.ltb (length clues) (h * w)) with false by (symmetry; apply Nat.ltb_ge; exact Hl).
   eexists. reflexivity.
